@@ -13,6 +13,7 @@ CONSTANTS
   MaxTxs = 1
   AllowEvidence = FALSE
   AllowAbsent = FALSE
+  MaxChecks = 0
   AllowRestart = TRUE
   AllowNoProposer = FALSE
   KnownD8 = TRUE
